@@ -364,7 +364,9 @@ func newFiller(t *kernel.Tape) *valgen.Filler {
 			return val(consensus.VerifPackTimeout(consensus.VerifTimeout{Duration: valgen.Time(f.T).Sub(valgen.Time(f.T)), Height: valgen.U64(f.T),
 				Round: int(valgen.I64(f.T)), Step: cstypes.RoundStepType(valgen.UBits(f.T, 8))}))
 		},
-		func(f *valgen.Filler, d int) reflect.Value { return val(consensus.EndHeightMessage{Height: valgen.U64(f.T)}) },
+		func(f *valgen.Filler, d int) reflect.Value {
+			return val(consensus.EndHeightMessage{Height: valgen.U64(f.T)})
+		},
 	}
 	f.Impl[typeOf((*mempool.MempoolMessage)(nil))] = []func(*valgen.Filler, int) reflect.Value{
 		func(f *valgen.Filler, d int) reflect.Value {
